@@ -18,6 +18,9 @@ def classify(rec, verdict):
 
 def corrupt(rec, rng):
     if rec["fn"] == "decode":
+        keys = [m[0] for m in rec["members"] if m[0] in ("iss", "sub", "aud", "exp", "nbf", "iat", "jti")]
+        if len(set(keys)) < len(keys):
+            return None        # for repeated members the specification demands no particular acceptance
         rec["ok"] = not rec["ok"]
         return rec
     if rec["fn"] == "roundtrip" and rec["names"]:
